@@ -250,8 +250,15 @@ theorem fragC_scalar {env : Env} {file : AFile} {G : List String} {Γ : Ctx} {K 
       cases hf : cgetField env e (.struct sn) idx with
       | none => rw [hf] at hcase; simp at hcase
       | some ft => rw [hf] at hcase; simp only at hcase; exact scalarEq_flat hcase
-  | toDyn tr forTy e ty => simp [fragC] at h
-  | dynCall tr m recv args ty => simp [fragC] at h
+  | toDyn tr forTy e ty =>
+    simp only [fragC, toDynOK, Bool.and_eq_true] at h
+    exact scalarEq_flat h.1.2
+  | dynCall tr m recv args ty =>
+    simp only [fragC, dynCallOK, Bool.and_eq_true] at h
+    obtain ⟨_, hcase⟩ := h
+    cases hsg : dynSig env tr m with
+    | none => rw [hsg] at hcase; cases hcase
+    | some s => rw [hsg] at hcase; simp only [Bool.and_eq_true] at hcase; exact scalarEq_flat hcase.2
   | go e ty =>
     simp only [fragC, goOK] at h
     cases hety : e.ty <;> rw [hety] at h <;> try (cases h; done)
@@ -286,7 +293,7 @@ theorem let_body {env : Env} {η η1 : Hp} {file : AFile} {G : List String} {P :
     (hinv : GInv Bad (Pre ++ (compileA env m st2 body).1) gρ)
     (hrel0 : EnvRel env η Γ ρ gρ) (hle1 : η.le η1) (hkrel : KRel K ρ) (h3 : VRel env η1 vv tx gv) (h4 : HasTy env η1 vv tx) (hw1 : WRel env η1 w1 gw1)
     (hfb : fragA env file G ((x, tx) :: Γ) (eraseK K x) body = true) (htgt : TgtOK m Γ gρ (aTy body)) (hus : "_" ∈ Bad)
-    (hfx : FCtx file G Bad η) (hcal : ∀ c, c ∈ calleesA (x :: Γ.map (·.1)) body → c ∈ Bad) :
+    (hfx : FCtx env file G Bad η) (hcal : ∀ c, c ∈ calleesA (x :: Γ.map (·.1)) body → c ∈ Bad) :
     Concl env η F (Pre ++ (compileA env m st2 body).1) m gρ gw (aTy body)
       (Sem.eval n P ((x, vv) :: ρ) w1 body.toExpr) := by
   have hrel : EnvRel env η1 Γ ρ gρ := hrel0.mono hle1
@@ -509,7 +516,7 @@ theorem let_order {env : Env} {η : Hp} {file : AFile} {G : List String} {P : Pr
     (m : Mode) (st : St) (x : String) (v : CExpr) (body : AExpr) (ty : Ty) (Γ : Ctx) (K : KCtx) (ρ : Sem.Env) (w : World)
     (gρ : GEnv) (gw : GWorld) (Bad : List String)
     (hfrag : fragA env file G Γ K (.letE x v body ty) = true) (hrel : EnvRel env η Γ ρ gρ) (hkrel : KRel K ρ) (hw : WRel env η w gw)
-    (hinv : GInv Bad (compileA env m st (.letE x v body ty)).1 gρ) (hus : "_" ∈ Bad) (hfx : FCtx file G Bad η)
+    (hinv : GInv Bad (compileA env m st (.letE x v body ty)).1 gρ) (hus : "_" ∈ Bad) (hfx : FCtx env file G Bad η)
     (hcal : ∀ c, c ∈ calleesA (Γ.map (·.1)) (.letE x v body ty) → c ∈ Bad) :
     match Sem.eval n P ρ w v.toExpr with
     | .ok vv w1 => ∃ η1, η.le η1 ∧ ∃ env1 gv gw1, BlockS F gρ gw (letPrefix env st x v) (.ok (env1, .normal) gw1) ∧ WRel env η1 w1 gw1 ∧
